@@ -148,7 +148,7 @@ class HistogramBase(abc.ABC):
             self._frequencies = np.zeros(self.shape, dtype=dtype)
         else:
             if dtype is not None:
-                frequencies = np.asarray(frequencies, dtype=dtype)
+                frequencies = self._cast_content(frequencies, dtype)
             else:
                 frequencies = np.asarray(frequencies)
                 if frequencies.dtype in self.SUPPORTED_DTYPES:
@@ -161,6 +161,13 @@ class HistogramBase(abc.ABC):
                     raise ValueError(
                         f"Frequencies of type {frequencies.dtype} not understood"
                     )
+                if errors2 is not None and frequencies.dtype.kind in "iu":
+                    # Fractional squared errors need floating-point contents too
+                    errors2 = np.asarray(errors2)
+                    if errors2.dtype.kind == "f" and np.any(errors2 % 1.0):
+                        frequencies = frequencies.astype(
+                            np.promote_types(frequencies.dtype, errors2.dtype)
+                        )
             dtype = frequencies.dtype
             self.frequencies = frequencies
         self._dtype, _ = self._eval_dtype(dtype)  # type: ignore
@@ -169,7 +176,7 @@ class HistogramBase(abc.ABC):
         if errors2 is None:
             self.errors2 = abs(self._frequencies.copy())
         else:
-            self.errors2 = np.asarray(errors2, dtype=self.dtype)
+            self.errors2 = self._cast_content(errors2, self.dtype)
 
         self.keep_missed = keep_missed
         # Note: missed are dealt differently in 1D/ND cases
@@ -311,6 +318,21 @@ class HistogramBase(abc.ABC):
                 "Unsupported dtype. Only integer/floating-point types are supported."
             )
         return dtype, type_info
+
+    @classmethod
+    def _cast_content(cls, values: ArrayLike, dtype: DTypeLike) -> np.ndarray:
+        """Convert values to the dtype, refusing what would not survive it (see set_dtype)."""
+        array = np.asarray(values)
+        dtype, type_info = cls._eval_dtype(dtype)
+        if array.dtype.kind in "iuf" and not np.can_cast(array.dtype, dtype):
+            if dtype.kind in "iu" and array.dtype.kind == "f" and np.any(array % 1.0):
+                raise ValueError("Data contain non-integer values.")
+            outside = (array > type_info.max) | (array < type_info.min)
+            if dtype.kind == "f":
+                outside &= np.isfinite(array)  # Infinities have their representation
+            if np.any(outside):
+                raise ValueError("Data contain values outside the specified range.")
+        return array.astype(dtype)
 
     @property
     def dtype(self) -> np.dtype:
